@@ -1,4 +1,5 @@
 import Pearl.Proofs.WorkerLemmas
+import Pearl.Proofs.WorkerTimed
 /-
 C13 — background maintenance stays alive: rotation continues and close terminates.
 
@@ -439,6 +440,550 @@ theorem close_terminates_current (lim : Limits) (st : WState) (queued : List Msg
     c.w.alive = true ∧ c.w.dumpRunning = false ∧ c.w.fsyncRunning = false :=
   let h := close_terminates lim st queued halive
   ⟨h.1, h.2.1, h.2.2.1, h.2.2.2.1, h.2.2.2.2.1⟩
+
+/-! ## C13/7: the timing of deferred index dumps
+
+The theorems above treat `Msg.deadlineDue` as an event the environment delivers.  Here the clock is explicit
+(`Pearl/Model/WorkerTimed.lean`: `now`, `deferred_index_dump_info = (first_time, last_time)`, `next_deadline`, the
+dump task ended by `dumpDone`; events `recv t ..`, `timeout t`, `dumpDone t`, `fsyncDone t`, `wait t`), and the
+assumption "a registered deferred dump eventually comes due" becomes a statement about the code.
+
+Three variants: `step` (`Variant.shipped`, /repo HEAD), `stepBuggy` (`Variant.seeded`, seeded change C13-5),
+`stepRepaired` (`Variant.repaired`, /repo HEAD with `update_deadline` also in the branch of
+`process_deferred_blob_index_dump` that re-creates the record while the dump task is running).
+
+FINDING (`deferred_has_deadline_refuted`, `deferred_dump_retry_lost`): in /repo HEAD that branch does not re-arm
+the deadline although `tick_with_deadline` has just reset it to `None`.  A deferred dump that comes due while a
+dump task is running is re-registered WITHOUT a deadline: the loop goes back to the plain `tick()` and the
+deferred dump runs only if some later request happens to call `defer_blob_indexes_dump` (a delete in a closed
+blob, or a rotation that attaches to the record).  Replayed on the harness binary (three closed blobs; the dump
+task stalled on blob 0, a delete let in between two time quanta, the task stalled again past the deadline):
+2.5 s later the index of blob 0 is still in memory with `defer=100,300`; a further delete heals it.
+The seeded change C13-5 removes even that.  The invariant and
+the retry statement are therefore proved for the repaired variant, refuted for the shipped one, and the shipped
+one gets the strongest true versions (`*_partial`, `deferred_rearmed_by_next_delete`, `orphan_is_fresh`). -/
+/- NOTE on the variant names: `Variant.shipped` is the loop of /repo up to commit 2401d8b (defect E22: the re-created
+deferred record gets no deadline), `Variant.repaired` is /repo since the `fix:` commit 41a1848 - i.e. THE CURRENT
+CODE; the translator checks this on every run (`Tie/C13.lean: deferred_rerecord_arms_deadline`).  `Variant.seeded`
+is the seeded change C13-5. -/
+section Timed
+open WorkerTimed
+
+/-- `deferred_min_time = 100 ms`, `deferred_max_time = 300 ms` -/
+def cfgT : TCfg := { lim := lim2, minT := 100, maxT := 300 }
+/-- a delete that hit a closed blob (`mark_all_as_deleted` → `defer_dump_old_blob_indexes`) -/
+abbrev deleteAt (t : Nat) : TEvent := .recv t .deferredDumpBlobIndexes none
+/-- an explicit dump request (`try_dump_old_blob_indexes`) -/
+abbrev dumpReqAt (t : Nat) : TEvent := .recv t .tryDumpBlobIndexes none
+/-- one closed blob whose index is not on disk, worker just created -/
+def tInit : TState := TState.init closedSt.store
+
+/-! ### (1) `deferred_has_deadline` -/
+
+/-- C13/7.1, repaired variant: in every reachable state a registered deferred dump has an armed deadline -/
+theorem deferred_has_deadline (cfg : TCfg) (s : TState) (h : Reachable .repaired cfg s) :
+    s.deferredInfo.isSome = true → s.nextDeadline.isSome = true := by
+  obtain ⟨store, es, rfl⟩ := h
+  exact armed_runV_repaired es (armed_init store)
+
+/-- the converse holds in all three variants: a deadline is armed only while a record is registered -/
+theorem deadline_has_deferred (v : Variant) (cfg : TCfg) (s : TState) (h : Reachable v cfg s) :
+    s.nextDeadline.isSome = true → s.deferredInfo.isSome = true := by
+  have hinv := inv_reachable h
+  unfold WorkerTimed.Inv at hinv
+  cases hd : s.deferredInfo <;> cases hn : s.nextDeadline <;> simp_all
+
+/-- the run on which /repo HEAD loses the deadline: a delete at t=0 registers the deferred dump (deadline 100),
+    an explicit dump request at t=50 starts a dump task, the deadline elapses at t=101 with the task still
+    running -/
+def lostEvents : List TEvent := [deleteAt 0, dumpReqAt 50, .timeout 101]
+
+/-- C13/7.1 is FALSE of the shipped code: after `lostEvents` a record is registered and no deadline is armed -/
+theorem deferred_has_deadline_refuted :
+    ¬ (∀ (cfg : TCfg) (s : TState), Reachable .shipped cfg s →
+        s.deferredInfo.isSome = true → s.nextDeadline.isSome = true) := by
+  intro h
+  have := h cfgT (run cfgT tInit lostEvents) ⟨closedSt.store, lostEvents, rfl⟩ (by decide)
+  exact absurd this (by decide)
+
+example : (run cfgT tInit lostEvents).deferredInfo = some ⟨101, 101⟩ ∧
+    (run cfgT tInit lostEvents).nextDeadline = none ∧ (run cfgT tInit lostEvents).dumpRunning = true := by decide
+-- the same events in the repaired variant: re-armed to 101 + min(100, 300)
+example : (runRepaired cfgT tInit lostEvents).deferredInfo = some ⟨101, 101⟩ ∧
+    (runRepaired cfgT tInit lostEvents).nextDeadline = some 201 := by decide
+
+/-- C13/7.1 for the shipped code, strongest true version: the invariant holds after every run in which no deadline
+    elapses on a due record while the dump task is running (`NoBlocked`) -/
+theorem deferred_has_deadline_partial (cfg : TCfg) (store : Store) (es : List TEvent)
+    (hnb : NoBlocked .shipped cfg (TState.init store) es) :
+    (run cfg (TState.init store) es).deferredInfo.isSome = true →
+    (run cfg (TState.init store) es).nextDeadline.isSome = true :=
+  armed_runV_noBlocked (by decide) es (armed_init store) hnb
+
+-- non-vacuity: a delete, a second delete, an early deadline, the dump request only after the deadline
+example : NoBlocked .shipped cfgT tInit [deleteAt 0, deleteAt 60, .timeout 101, dumpReqAt 120] :=
+  ⟨by decide, by decide, by decide, by decide, trivial⟩
+example : (run cfgT tInit [deleteAt 0, deleteAt 60, .timeout 101, dumpReqAt 120]).deferredInfo = some ⟨0, 60⟩ ∧
+    (run cfgT tInit [deleteAt 0, deleteAt 60, .timeout 101, dumpReqAt 120]).nextDeadline = some 160 := by decide
+-- … and `lostEvents` is excluded by the hypothesis
+example : ¬ NoBlocked .shipped cfgT tInit lostEvents := by
+  intro h
+  exact absurd h.2.2.1 (by decide)
+
+/-- … and unconditionally (shipped and repaired): every delete that reaches the worker leaves a deadline armed —
+    this is how /repo HEAD recovers from the lost deadline, and exactly what the seeded change removes -/
+theorem deferred_rearmed_by_next_delete {v : Variant} (hv : v ≠ .seeded) (cfg : TCfg) (s : TState) (t : Nat)
+    (halive : s.alive = true) (ht : s.now ≤ t) :
+    (stepV v cfg s (deleteAt t)).deferredInfo.isSome = true ∧ (stepV v cfg s (deleteAt t)).nextDeadline.isSome = true := by
+  have hen : enabled s (deleteAt t) = true := by simp [enabled, halive, TEvent.time, ht]
+  have : stepV v cfg s (deleteAt t) = deferDumpT v cfg { s with now := t } := by
+    simp [stepV, hen, processOpT, predOk, TEvent.time]
+  rw [this]
+  exact ⟨(deferDumpT_armed hv cfg _).2, (deferDumpT_armed hv cfg _).1⟩
+
+-- (record (101, 600): deadline min(101 + 300, 600 + 100))
+example : (run cfgT tInit (lostEvents ++ [deleteAt 600])).nextDeadline = some 401 := by decide
+
+/-- … and a record without a deadline is always a freshly re-created one (`first_time = last_time`) -/
+theorem orphan_is_fresh {v : Variant} (hv : v ≠ .seeded) (cfg : TCfg) (s : TState) (h : Reachable v cfg s)
+    (d : Deferred) (hd : s.deferredInfo = some d) (hn : s.nextDeadline = none) : d.first = d.last := by
+  obtain ⟨store, es, rfl⟩ := h
+  exact orphanFresh_runV hv es (orphanFresh_init store) d hd hn
+
+/-- the seeded change C13-5 on the same run: the invariant fails … -/
+theorem deferred_has_deadline_buggy_refuted :
+    (runBuggy cfgT tInit lostEvents).deferredInfo = some ⟨101, 101⟩ ∧
+    (runBuggy cfgT tInit lostEvents).nextDeadline = none := by decide
+
+/-- … and stays failed for EVERY continuation (further deletes, rotations, anything): no deadline is ever armed
+    again, no `timeout` is ever enabled again, the untimed `deadlineDue` never occurs again -/
+theorem buggy_never_rearmed (es : List TEvent) :
+    (runBuggy cfgT tInit (lostEvents ++ es)).deferredInfo.isSome = true ∧
+    (runBuggy cfgT tInit (lostEvents ++ es)).nextDeadline = none ∧
+    ∀ m ∈ traceV .seeded cfgT (runBuggy cfgT tInit lostEvents) es, isDue m = false := by
+  have h0 : Orphan (runBuggy cfgT tInit lostEvents) := by
+    constructor <;> decide
+  have h := orphan_runV_seeded cfgT _ es h0
+  have happ : runBuggy cfgT tInit (lostEvents ++ es) = runV .seeded cfgT (runBuggy cfgT tInit lostEvents) es :=
+    runV_append .seeded cfgT tInit lostEvents es
+  rw [happ]
+  exact ⟨h.1.1, h.1.2, h.2⟩
+
+/-- … so with deletes (and task completions, and time) only, the dump never starts: the one dump task ever
+    spawned is the explicit request of t=50 -/
+theorem buggy_dump_never_starts (es : List TEvent) (hes : ∀ e ∈ es, e.noRecv = true ∨ e.isDelete = true) :
+    (runBuggy cfgT tInit (lostEvents ++ es)).dumpStarts = 1 := by
+  have h0 : Orphan (runBuggy cfgT tInit lostEvents) := by
+    constructor <;> decide
+  have happ : runBuggy cfgT tInit (lostEvents ++ es) = runV .seeded cfgT (runBuggy cfgT tInit lostEvents) es :=
+    runV_append .seeded cfgT tInit lostEvents es
+  rw [happ, orphan_runV_seeded_noStart cfgT _ es h0 hes]
+  decide
+
+-- the same continuation, seeded and shipped: task done at 500, a delete at 600 (deadline 401, already elapsed)
+example : (runBuggy cfgT tInit (lostEvents ++ [.dumpDone 500, deleteAt 600, .timeout 601, .wait 100000])).dumpStarts = 1 := by
+  decide
+example : (run cfgT tInit (lostEvents ++ [.dumpDone 500, deleteAt 600, .timeout 601])).dumpStarts = 2 := by decide
+
+/-! ### (2) `deadline_bounds` -/
+
+/-- C13/7.2 (all variants): the record is ordered and in the past, and the armed deadline lies between
+    `first_time + min(min, max)` and `next_deadline(min, max) = min(first_time + max, last_time + min)`.
+    In particular it is never later than `first_time + max` and never later than `last_time + min`; the worker
+    wakes at `deadline + EPS`. -/
+theorem deadline_bounds (v : Variant) (cfg : TCfg) (s : TState) (h : Reachable v cfg s)
+    (d : Deferred) (dl : Nat) (hd : s.deferredInfo = some d) (hdl : s.nextDeadline = some dl) :
+    d.first ≤ d.last ∧ d.last ≤ s.now ∧
+    d.first + min cfg.minT cfg.maxT ≤ dl ∧
+    dl ≤ d.nextDeadline cfg.minT cfg.maxT ∧ dl ≤ d.first + cfg.maxT ∧ dl ≤ d.last + cfg.minT := by
+  have hinv := inv_reachable h
+  unfold WorkerTimed.Inv at hinv
+  rw [hd, hdl] at hinv
+  simp only [Deferred.nextDeadline] at hinv ⊢
+  omega
+
+example : (run cfgT tInit [deleteAt 0, deleteAt 60]).deferredInfo = some ⟨0, 60⟩ ∧
+    (run cfgT tInit [deleteAt 0, deleteAt 60]).nextDeadline = some 100 := by decide
+
+/-- the lower bound "never earlier than `last_time + min` unless capped by `first_time + max`" is FALSE of the
+    armed deadline: `update_deadline` keeps the earlier of the old and the new deadline, so after a second delete
+    the deadline of the first one stays armed (100 < 60 + 100 and 100 < 0 + 300) … -/
+theorem deadline_lower_bound_refuted :
+    ¬ (∀ (cfg : TCfg) (s : TState) (d : Deferred) (dl : Nat), Reachable .shipped cfg s →
+        s.deferredInfo = some d → s.nextDeadline = some dl → d.last + cfg.minT ≤ dl ∨ d.first + cfg.maxT ≤ dl) := by
+  intro h
+  have := h cfgT (run cfgT tInit [deleteAt 0, deleteAt 60]) ⟨0, 60⟩ 100 ⟨closedSt.store, _, rfl⟩
+    (by decide) (by decide)
+  exact absurd this (by decide)
+
+/-- … but it is TRUE of the dump itself (all variants, any state): a `timeout` spawns a dump task only when
+    `last_time.elapsed() ≥ min` or `first_time.elapsed() ≥ max`; a deadline that elapses earlier only re-arms -/
+theorem deferred_start_respects_min (v : Variant) (cfg : TCfg) (s : TState) (t : Nat)
+    (hstart : (stepV v cfg s (.timeout t)).dumpStarts ≠ s.dumpStarts) :
+    ∃ d, s.deferredInfo = some d ∧ (cfg.minT ≤ t - d.last ∨ cfg.maxT ≤ t - d.first) := by
+  by_cases hen : enabled s (.timeout t) = true
+  · cases hd : s.deferredInfo with
+    | none =>
+      exfalso; apply hstart
+      rw [stepV_timeout v cfg s t hen]
+      simp [processDeferredT, hd]
+    | some d =>
+      refine ⟨d, rfl, ?_⟩
+      by_cases hdue : d.due cfg.minT cfg.maxT t = true
+      · exact (due_iff d cfg.minT cfg.maxT t).1 hdue
+      · exfalso; apply hstart
+        rw [timeout_early v cfg s t d hen hd (by simpa using hdue)]
+  · exfalso; apply hstart
+    rw [stepV_disabled v cfg s _ (by simpa using hen)]
+
+/-- an early deadline re-arms to exactly `next_deadline(min, max)` -/
+theorem early_deadline_rearms (v : Variant) (cfg : TCfg) (s : TState) (t : Nat) (d : Deferred)
+    (hen : enabled s (.timeout t) = true) (hd : s.deferredInfo = some d) (hdue : d.due cfg.minT cfg.maxT t = false) :
+    stepV v cfg s (.timeout t) = { s with now := t, nextDeadline := some (d.nextDeadline cfg.minT cfg.maxT) } :=
+  timeout_early v cfg s t d hen hd hdue
+
+example : (run cfgT tInit [deleteAt 0, deleteAt 60, .timeout 101]).nextDeadline = some 160 ∧
+    (run cfgT tInit [deleteAt 0, deleteAt 60, .timeout 101]).dumpStarts = 0 ∧
+    (run cfgT tInit [deleteAt 0, deleteAt 60, .timeout 101, .timeout 161]).dumpStarts = 1 := by decide
+-- capped by `max`: deletes every 90 ms keep `last + min` moving, the dump starts at first + max + EPS
+example : (run cfgT tInit [deleteAt 0, deleteAt 90, .timeout 101, deleteAt 180, .timeout 191, deleteAt 270,
+      .timeout 281]).nextDeadline = some 300 ∧
+    (run cfgT tInit [deleteAt 0, deleteAt 90, .timeout 101, deleteAt 180, .timeout 191, deleteAt 270,
+      .timeout 281, .timeout 301]).dumpStarts = 1 := by decide
+
+/-! ### (3) `deferred_dump_runs` -/
+
+/-- C13/7.3 (all variants): a deferred dump is registered at time `t0` (no record before) and no further request
+    arrives (`q`: only task completions and time).  Then the record is `(t0, t0)` with deadline
+    `t0 + min(min, max)`, and once the clock has passed `deadline + EPS` with no dump task running, the next loop
+    iteration is the `timeout`, it is the untimed `deadlineDue`, and it starts the dump. -/
+theorem deferred_dump_runs (v : Variant) (cfg : TCfg) (s0 : TState) (hreach : Reachable v cfg s0)
+    (halive : s0.alive = true) (hnone : s0.deferredInfo = none) (t0 : Nat) (ht0 : s0.now ≤ t0)
+    (q : List TEvent) (hq : ∀ e ∈ q, e.quiet = true) (t : Nat) :
+    let s1 := stepV v cfg s0 (deleteAt t0)
+    let s2 := runV v cfg s1 q
+    s1.deferredInfo = some ⟨t0, t0⟩ ∧ s1.nextDeadline = some (t0 + min cfg.minT cfg.maxT) ∧
+    (s2.now ≤ t → t0 + min cfg.minT cfg.maxT + EPS ≤ t → s2.dumpRunning = false →
+      enabled s2 (.timeout t) = true ∧ msgOf cfg s2 (.timeout t) = some .deadlineDue ∧
+      Started s2 (stepV v cfg s2 (.timeout t))) := by
+  have hnd : s0.nextDeadline = none := by
+    have hinv := inv_reachable hreach
+    unfold WorkerTimed.Inv at hinv
+    rw [hnone] at hinv
+    cases hn : s0.nextDeadline with
+    | none => rfl
+    | some dl => rw [hn] at hinv; exact hinv.elim
+  have hen : enabled s0 (deleteAt t0) = true := by simp [enabled, halive, TEvent.time, ht0]
+  have hs1 : stepV v cfg s0 (deleteAt t0) = deferDumpT v cfg { s0 with now := t0 } := by
+    simp [stepV, hen, processOpT, predOk, TEvent.time]
+  have hd1 : (stepV v cfg s0 (deleteAt t0)).deferredInfo = some ⟨t0, t0⟩ := by
+    rw [hs1]
+    cases v <;> simp [deferDumpT, hnone, Deferred.new, updateDeadline_eq]
+  have hn1 : (stepV v cfg s0 (deleteAt t0)).nextDeadline = some (t0 + min cfg.minT cfg.maxT) := by
+    rw [hs1]
+    cases v <;> simp [deferDumpT, hnone, hnd, Deferred.new, updateDeadline_eq, Deferred.nextDeadline] <;> omega
+  have hal1 : (stepV v cfg s0 (deleteAt t0)).alive = true := by
+    rw [hs1]
+    cases v <;> simp [deferDumpT, hnone, updateDeadline_eq, halive]
+  refine ⟨hd1, hn1, ?_⟩
+  intro hnow hpast hrun
+  have hqr := quiet_runV v cfg (stepV v cfg s0 (deleteAt t0)) q hq
+  have hen2 : enabled (runV v cfg (stepV v cfg s0 (deleteAt t0)) q) (.timeout t) = true := by
+    rw [enabled_timeout_iff]
+    exact ⟨hqr.2.2.2.1.trans hal1, hnow, _, hqr.2.1.trans hn1, hpast⟩
+  have hd2 := hqr.1.trans hd1
+  have hdue : (⟨t0, t0⟩ : Deferred).due cfg.minT cfg.maxT t = true :=
+    due_of_elapsed (dl := t0 + min cfg.minT cfg.maxT) (by simp only [Deferred.nextDeadline]; omega) hpast
+  refine ⟨hen2, ?_, ?_⟩
+  · rw [msgOf_timeout cfg _ t hen2]
+    simp [dueAt, hd2, hdue]
+  · rw [timeout_starts v cfg _ t _ hen2 hd2 hdue hrun]
+    exact ⟨rfl, rfl, rfl, rfl⟩
+
+-- non-vacuity: delete at 0, the fsync task ends and time passes, the deadline (100 + 1) elapses, the dump starts
+example : (run cfgT tInit [deleteAt 0, .fsyncDone 30, .wait 101, .timeout 101]).dumpRunning = true ∧
+    (run cfgT tInit [deleteAt 0, .fsyncDone 30, .wait 101, .timeout 101]).deferredInfo = none ∧
+    ((run cfgT tInit [deleteAt 0, .fsyncDone 30, .wait 101, .timeout 101, .dumpDone 150]).store.closed.map (·.onDisk))
+      = [true] := by decide
+
+/-- C13/7.3, any reachable state (all variants): a record with an armed deadline — possibly a stale, earlier one
+    — and no further request.  The first `timeout` either starts the dump or (stale deadline, record not yet due)
+    re-arms to `next_deadline(min, max)`; the second one then starts it. -/
+theorem deferred_dump_runs_within_two (v : Variant) (cfg : TCfg) (s : TState)
+    (d : Deferred) (hd : s.deferredInfo = some d)
+    (t1 : Nat) (hen1 : enabled s (.timeout t1) = true) (hr1 : s.dumpRunning = false) :
+    let s1 := stepV v cfg s (.timeout t1)
+    Started s s1 ∨
+    (s1.deferredInfo = some d ∧ s1.nextDeadline = some (d.nextDeadline cfg.minT cfg.maxT) ∧
+     s1.dumpRunning = false ∧
+     ∀ (q : List TEvent), (∀ e ∈ q, e.quiet = true) → ∀ t2,
+       let s2 := runV v cfg s1 q
+       s2.now ≤ t2 → d.nextDeadline cfg.minT cfg.maxT + EPS ≤ t2 →
+       enabled s2 (.timeout t2) = true ∧ Started s2 (stepV v cfg s2 (.timeout t2))) := by
+  by_cases hdue : d.due cfg.minT cfg.maxT t1 = true
+  · left
+    rw [timeout_starts v cfg s t1 d hen1 hd hdue hr1]
+    exact ⟨rfl, rfl, rfl, rfl⟩
+  · right
+    have hs1 := timeout_early v cfg s t1 d hen1 hd (by simpa using hdue)
+    rw [hs1]
+    refine ⟨hd, rfl, hr1, ?_⟩
+    intro q hq t2
+    simp only
+    intro hnow hpast
+    have hqr := quiet_runV v cfg { s with now := t1, nextDeadline := some (d.nextDeadline cfg.minT cfg.maxT) } q hq
+    have hen2 : enabled (runV v cfg { s with now := t1, nextDeadline := some (d.nextDeadline cfg.minT cfg.maxT) } q)
+        (.timeout t2) = true := by
+      rw [enabled_timeout_iff]
+      exact ⟨(hqr.2.2.2.1 : _ = s.alive).trans (enabled_alive (s := s) hen1), hnow, _, hqr.2.1, hpast⟩
+    refine ⟨hen2, ?_⟩
+    rw [timeout_starts v cfg _ t2 d hen2 (hqr.1.trans hd) (due_of_elapsed (Nat.le_refl _) hpast)
+      (hqr.2.2.2.2.2 hr1)]
+    exact ⟨rfl, rfl, rfl, rfl⟩
+
+/-- C13/7.3, the retry, repaired variant: the deadline elapses on a due record while the dump task is still
+    running.  The record is re-created at that moment WITH a deadline; after the task has finished (`dumpDone`
+    among the quiet events) and that deadline has elapsed, the next iteration starts the dump. -/
+theorem deferred_dump_retried (cfg : TCfg) (s : TState) (d : Deferred) (hd : s.deferredInfo = some d)
+    (t1 : Nat) (hen1 : enabled s (.timeout t1) = true) (hdue : d.due cfg.minT cfg.maxT t1 = true)
+    (hr1 : s.dumpRunning = true)
+    (q : List TEvent) (hq : ∀ e ∈ q, e.quiet = true) (t2 : Nat) :
+    let s1 := stepRepaired cfg s (.timeout t1)
+    let s2 := runRepaired cfg s1 q
+    s1.deferredInfo = some ⟨t1, t1⟩ ∧ s1.nextDeadline = some (t1 + min cfg.minT cfg.maxT) ∧
+    s1.dumpStarts = s.dumpStarts ∧
+    (s2.now ≤ t2 → t1 + min cfg.minT cfg.maxT + EPS ≤ t2 → s2.dumpRunning = false →
+      enabled s2 (.timeout t2) = true ∧ msgOf cfg s2 (.timeout t2) = some .deadlineDue ∧
+      Started s2 (stepRepaired cfg s2 (.timeout t2))) := by
+  have hs1 := timeout_blocked .repaired cfg s t1 d hen1 hd hdue hr1
+  have hnd : (Deferred.new t1).nextDeadline cfg.minT cfg.maxT = t1 + min cfg.minT cfg.maxT := by
+    simp only [Deferred.nextDeadline, Deferred.new]; omega
+  simp only [↓reduceIte, hnd] at hs1
+  simp only [stepRepaired, runRepaired]
+  rw [hs1]
+  refine ⟨rfl, rfl, rfl, ?_⟩
+  intro hnow hpast hrun
+  have hqr := quiet_runV .repaired cfg
+    { s with now := t1, deferredInfo := some (Deferred.new t1), nextDeadline := some (t1 + min cfg.minT cfg.maxT) } q hq
+  have hen2 : enabled (runV .repaired cfg
+      { s with now := t1, deferredInfo := some (Deferred.new t1), nextDeadline := some (t1 + min cfg.minT cfg.maxT) } q)
+      (.timeout t2) = true := by
+    rw [enabled_timeout_iff]
+    exact ⟨(hqr.2.2.2.1 : _ = s.alive).trans (enabled_alive (s := s) hen1), hnow, _, hqr.2.1, hpast⟩
+  have hdue2 : (Deferred.new t1).due cfg.minT cfg.maxT t2 = true :=
+    due_of_elapsed (dl := t1 + min cfg.minT cfg.maxT) (by rw [hnd]; exact Nat.le_refl _) hpast
+  refine ⟨hen2, ?_, ?_⟩
+  · rw [msgOf_timeout cfg _ t2 hen2]
+    simp [dueAt, hqr.1, hdue2]
+  · rw [timeout_starts .repaired cfg _ t2 _ hen2 hqr.1 hdue2 hrun]
+    exact ⟨rfl, rfl, rfl, rfl⟩
+
+/-- the hypothesis `s2.dumpRunning = false` of `deferred_dump_retried` is what `dumpDone` provides: quiet events,
+    then the end of the dump task, then quiet events leave no dump task running (all variants) -/
+theorem dumpDone_then_quiet (v : Variant) (cfg : TCfg) (s : TState) (q1 q2 : List TEvent) (T : Nat)
+    (halive : s.alive = true) (hq1 : ∀ e ∈ q1, e.quiet = true) (hq2 : ∀ e ∈ q2, e.quiet = true)
+    (hT : (runV v cfg s q1).now ≤ T) :
+    (runV v cfg s (q1 ++ .dumpDone T :: q2)).dumpRunning = false := by
+  rw [runV_append, runV_cons]
+  have h1 := quiet_runV v cfg s q1 hq1
+  have h2 := dumpDone_stops v cfg (runV v cfg s q1) T (h1.2.2.2.1.trans halive) hT
+  exact (quiet_runV v cfg _ q2 hq2).2.2.2.2.2 h2
+
+/-- C13/7.3, the retry, is FALSE of the shipped code (and of the seeded one): same situation, any state.  The
+    record is re-created WITHOUT a deadline, and as long as no request arrives — whatever else happens: the dump
+    task ends, time passes — the record stays, no deadline is armed, no `timeout` is enabled, `deadlineDue` never
+    occurs, no dump task is spawned. -/
+theorem deferred_dump_retry_lost {v : Variant} (hv : v ≠ .repaired) (cfg : TCfg) (s : TState) (d : Deferred)
+    (hd : s.deferredInfo = some d)
+    (t1 : Nat) (hen1 : enabled s (.timeout t1) = true) (hdue : d.due cfg.minT cfg.maxT t1 = true)
+    (hr1 : s.dumpRunning = true)
+    (es : List TEvent) (hes : ∀ e ∈ es, e.noRecv = true) :
+    let s1 := stepV v cfg s (.timeout t1)
+    let s2 := runV v cfg s1 es
+    s1.deferredInfo = some ⟨t1, t1⟩ ∧ s1.nextDeadline = none ∧
+    s2.deferredInfo = some ⟨t1, t1⟩ ∧ s2.nextDeadline = none ∧ s2.dumpStarts = s.dumpStarts ∧
+    (∀ t, enabled s2 (.timeout t) = false) ∧
+    ∀ m ∈ traceV v cfg s1 es, isDue m = false := by
+  have hs1 := timeout_blocked v cfg s t1 d hen1 hd hdue hr1
+  simp only [hv, ↓reduceIte] at hs1
+  simp only
+  have hn1 : (stepV v cfg s (.timeout t1)).nextDeadline = none := by rw [hs1]
+  have hd1 : (stepV v cfg s (.timeout t1)).deferredInfo = some ⟨t1, t1⟩ := by rw [hs1]; rfl
+  have hst1 : (stepV v cfg s (.timeout t1)).dumpStarts = s.dumpStarts := by rw [hs1]
+  have h := noDeadline_runV v cfg _ es hn1 hes
+  refine ⟨hd1, hn1, h.1.trans hd1, h.2.1, h.2.2.1.trans hst1, ?_, h.2.2.2⟩
+  intro t
+  simp [enabled, deadlineElapsed, h.2.1]
+
+-- the requested scenario: a delete into a closed blob at t=0, min=100, max=300, a dump task running from t=50
+-- to t=500.
+/-- repaired variant: the deadlines 100, 201, 302, 403, 504 are armed one after the other (each elapses while the
+    task is still running and re-creates the record), the task ends at 500, the deadline 504 elapses at 505 -/
+def retryEvents : List TEvent :=
+  [deleteAt 0, dumpReqAt 50, .timeout 101, .timeout 202, .timeout 303, .timeout 404, .dumpDone 500, .timeout 505]
+
+example : (runRepaired cfgT tInit (retryEvents.take 1)).nextDeadline = some 100 ∧
+    (runRepaired cfgT tInit (retryEvents.take 2)).dumpRunning = true ∧
+    (runRepaired cfgT tInit (retryEvents.take 3)).nextDeadline = some 201 ∧
+    (runRepaired cfgT tInit (retryEvents.take 4)).nextDeadline = some 302 ∧
+    (runRepaired cfgT tInit (retryEvents.take 5)).nextDeadline = some 403 ∧
+    (runRepaired cfgT tInit (retryEvents.take 6)).nextDeadline = some 504 ∧
+    (runRepaired cfgT tInit (retryEvents.take 6)).deferredInfo = some ⟨404, 404⟩ ∧
+    (runRepaired cfgT tInit (retryEvents.take 6)).dumpStarts = 1 ∧
+    (runRepaired cfgT tInit (retryEvents.take 7)).dumpRunning = false ∧
+    ((runRepaired cfgT tInit (retryEvents.take 7)).store.closed.map (·.onDisk)) = [true] := by decide
+-- the dump is started (a second time) after 500, the record and the deadline are cleared
+example : (runRepaired cfgT tInit retryEvents).dumpStarts = 2 ∧
+    (runRepaired cfgT tInit retryEvents).dumpRunning = true ∧ (runRepaired cfgT tInit retryEvents).now = 505 ∧
+    (runRepaired cfgT tInit retryEvents).deferredInfo = none ∧
+    (runRepaired cfgT tInit retryEvents).nextDeadline = none := by decide
+-- its untimed trace: the deadline was due five times, four of them blocked
+example : (traceV .repaired cfgT tInit retryEvents).map isDue = [false, false, true, true, true, true, false, true] := by
+  decide
+-- before the deadline nothing is enabled: a `timeout` at 504 is a no-op
+example : (runRepaired cfgT tInit (retryEvents.take 7 ++ [.timeout 504])).dumpStarts = 1 := by decide
+/-- shipped code, same scenario: the deadline 100 elapses at 101, the record is re-created with no deadline, and
+    the very same later events do nothing — the dump is NOT started after 500 -/
+example : (run cfgT tInit retryEvents).dumpStarts = 1 ∧ (run cfgT tInit retryEvents).dumpRunning = false ∧
+    (run cfgT tInit retryEvents).deferredInfo = some ⟨101, 101⟩ ∧
+    (run cfgT tInit retryEvents).nextDeadline = none := by decide
+-- … until another delete arrives (t=600): record (101, 600), deadline min(401, 700) = 401 has elapsed, the
+-- next iteration starts the dump
+example : (run cfgT tInit (retryEvents ++ [deleteAt 600])).nextDeadline = some 401 ∧
+    (run cfgT tInit (retryEvents ++ [deleteAt 600, .timeout 600])).dumpStarts = 2 ∧
+    (run cfgT tInit (retryEvents ++ [deleteAt 600, .timeout 600])).deferredInfo = none := by decide
+
+/-! ### (4) simulation -/
+
+/-- C13/7.4 (all variants): erasing the clock maps every timed run to a run of the untimed model
+    (`runWorkerFixed` = `processMsgFixed` folded) over the trace of the timed run … -/
+theorem timed_refines_untimed (v : Variant) (cfg : TCfg) (s : TState) (es : List TEvent) :
+    erase (runV v cfg s es) = runWorkerFixed cfg.lim (erase s) (traceV v cfg s es) :=
+  erase_runV v cfg s es
+
+/-- … step by step: one timed iteration is `processMsgFixed` on the message it stands for, or a stutter -/
+theorem timed_step_refines_untimed (v : Variant) (cfg : TCfg) (s : TState) (e : TEvent) :
+    erase (stepV v cfg s e) =
+      match msgOf cfg s e with
+      | some m => processMsgFixed cfg.lim (erase s) m
+      | none => erase s :=
+  erase_stepV v cfg s e
+
+/-- … in which `deadlineDue` occurs only when the timed model fired it: the event is a `timeout`, the worker is
+    alive, time does not go backwards, an armed deadline has elapsed (`dl + EPS ≤ t`), a record is registered and
+    the `min`/`max` condition holds -/
+theorem deadlineDue_only_when_fired (cfg : TCfg) (s : TState) (e : TEvent) :
+    msgOf cfg s e = some .deadlineDue ↔
+      ∃ t dl d, e = .timeout t ∧ s.alive = true ∧ s.now ≤ t ∧ s.nextDeadline = some dl ∧ dl + EPS ≤ t ∧
+        s.deferredInfo = some d ∧ (cfg.minT ≤ t - d.last ∨ cfg.maxT ≤ t - d.first) := by
+  rw [msgOf_deadlineDue_iff]
+  constructor
+  · rintro ⟨t, rfl, hf⟩
+    simp only [firesDue, Bool.and_eq_true] at hf
+    obtain ⟨hal, hnow, dl, hdl, hel⟩ := (enabled_timeout_iff s t).1 hf.1
+    have hdue := hf.2
+    unfold dueAt at hdue
+    cases hd : s.deferredInfo with
+    | none => rw [hd] at hdue; cases hdue
+    | some d =>
+      rw [hd] at hdue
+      exact ⟨t, dl, d, rfl, hal, hnow, hdl, hel, rfl, (due_iff d _ _ t).1 hdue⟩
+  · rintro ⟨t, dl, d, rfl, hal, hnow, hdl, hel, hd, hdue⟩
+    refine ⟨t, rfl, ?_⟩
+    simp only [firesDue, Bool.and_eq_true]
+    exact ⟨(enabled_timeout_iff s t).2 ⟨hal, hnow, dl, hdl, hel⟩, by
+      unfold dueAt; rw [hd]; exact (due_iff d _ _ t).2 hdue⟩
+
+/-- … at run level: every `deadlineDue` of the trace is a fired `timeout` of the run -/
+theorem deadlineDue_in_trace (v : Variant) (cfg : TCfg) (s : TState) (es : List TEvent)
+    (h : ∃ m ∈ traceV v cfg s es, isDue m = true) :
+    ∃ pre t post, es = pre ++ .timeout t :: post ∧ firesDue cfg (runV v cfg s pre) t = true := by
+  induction es generalizing s with
+  | nil => obtain ⟨m, hm, _⟩ := h; simp [traceV] at hm
+  | cons e es ih =>
+    obtain ⟨m, hm, hdue⟩ := h
+    rw [traceV_cons] at hm
+    rcases List.mem_append.1 hm with hm | hm
+    · have hm' : msgOf cfg s e = some m := by simpa using hm
+      have : m = .deadlineDue := by cases m <;> first | rfl | cases hdue
+      subst this
+      obtain ⟨t, rfl, hf⟩ := (msgOf_deadlineDue_iff cfg s e).1 hm'
+      exact ⟨[], t, es, rfl, hf⟩
+    · obtain ⟨pre, t, post, rfl, hf⟩ := ih (stepV v cfg s e) ⟨m, hm, hdue⟩
+      exact ⟨e :: pre, t, post, rfl, hf⟩
+
+/-- so the untimed C13 theorems transfer to timed runs.  C13/1: the timed worker survives every event sequence -/
+theorem timed_worker_total (v : Variant) (cfg : TCfg) (s : TState) (es : List TEvent) (halive : s.alive = true) :
+    (runV v cfg s es).alive = true := by
+  have h := timed_refines_untimed v cfg s es
+  have h2 := worker_total_fixed cfg.lim (erase s) (traceV v cfg s es) halive
+  have : (erase (runV v cfg s es)).alive = true := by rw [h]; exact h2
+  exact this
+
+/-- C13/2 transferred: a `TryUpdateActiveBlob` received at any time by a live timed worker whose active blob is
+    at the record limit rotates it, and the closed blob's index dump is either running or registered -/
+theorem timed_overflow_switches (v : Variant) (cfg : TCfg) (s : TState) (a : Blob) (t : Nat)
+    (halive : s.alive = true) (ht : s.now ≤ t) (hact : s.store.active = some a) (hfull : cfg.lim.maxCount ≤ a.count) :
+    let s' := stepV v cfg s (.recv t .tryUpdateActiveBlob none)
+    s'.alive = true ∧
+    s'.store.active = some { id := s.store.nextId, recs := [] } ∧
+    a ∈ s'.store.closed ∧
+    (s'.dumpRunning = true ∨ s'.deferredInfo.isSome = true) := by
+  have hen : enabled s (.recv t .tryUpdateActiveBlob none) = true := by simp [enabled, halive, TEvent.time, ht]
+  have hm : msgOf cfg s (.recv t .tryUpdateActiveBlob none) = some tryUpdate := by simp [msgOf, hen]
+  have h := timed_step_refines_untimed v cfg s (.recv t .tryUpdateActiveBlob none)
+  rw [hm] at h
+  have h2 := overflow_switches_fixed cfg.lim (erase s) a halive hact hfull
+  simp only at h h2
+  rw [← h] at h2
+  exact ⟨h2.1, h2.2.1, h2.2.2.2.2.1, h2.2.2.2.2.2⟩
+
+/-- C13/7.4, the converse (all variants, any state): with a record registered AND a deadline armed, the untimed
+    `deadlineDue` is enabled after at most two elapsing deadlines, without any message … -/
+theorem deadlineDue_eventually_enabled_of_armed (v : Variant) (cfg : TCfg) (s : TState) (halive : s.alive = true)
+    (hdef : (erase s).deferred = true) (harmed : s.nextDeadline.isSome = true) :
+    ∃ es : List TEvent, es.length ≤ 2 ∧ (∀ e ∈ es, ∃ t, e = .timeout t) ∧ traceV v cfg s es = [.deadlineDue] := by
+  have hdef' : s.deferredInfo.isSome = true := hdef
+  cases hd : s.deferredInfo with
+  | none => rw [hd] at hdef'; cases hdef'
+  | some d =>
+    cases hn : s.nextDeadline with
+    | none => rw [hn] at harmed; cases harmed
+    | some dl => exact due_within_two_timeouts v cfg s halive d dl hd hn
+
+/-- … hence, by (1), always in the repaired variant: whenever the untimed model could take `deadlineDue`
+    (`deferred = true`), the timed one gets there by itself -/
+theorem deadlineDue_eventually_enabled (cfg : TCfg) (s : TState) (h : Reachable .repaired cfg s)
+    (halive : s.alive = true) (hdef : (erase s).deferred = true) :
+    ∃ es : List TEvent, es.length ≤ 2 ∧ (∀ e ∈ es, ∃ t, e = .timeout t) ∧
+      traceV .repaired cfg s es = [.deadlineDue] :=
+  deadlineDue_eventually_enabled_of_armed .repaired cfg s halive hdef (deferred_has_deadline cfg s h hdef)
+
+example : (erase (runRepaired cfgT tInit lostEvents)).deferred = true := by decide
+
+/-- … and NOT in the shipped code: in the reachable state after `lostEvents` the untimed model has
+    `deferred = true`, yet no continuation without a message ever contains `deadlineDue` -/
+theorem deadlineDue_eventually_enabled_refuted :
+    (erase (run cfgT tInit lostEvents)).deferred = true ∧
+    ∀ es : List TEvent, (∀ e ∈ es, e.noRecv = true) →
+      ∀ m ∈ traceV .shipped cfgT (run cfgT tInit lostEvents) es, isDue m = false := by
+  refine ⟨by decide, ?_⟩
+  intro es hes
+  exact (noDeadline_runV .shipped cfgT _ es (by decide) hes).2.2.2
+
+end Timed
+
+/-
+C13, NOT YET PROVED / out of the model:
+* the timed model makes one loop iteration atomic (every `Instant::now()` inside it reads the event's time stamp)
+  and lets any `recv` pre-empt an elapsed deadline (`Timeout` polls `recv()` first), so starvation of
+  `process_defered` by a permanently non-empty queue is allowed by the model and not excluded by any theorem;
+* `deferred_has_deadline`, `deferred_dump_retried`, `deadlineDue_eventually_enabled` are about
+  `Variant.repaired`, which is NOT the shipped code: for /repo HEAD they are refuted
+  (`deferred_has_deadline_refuted`, `deferred_dump_retry_lost`, `deadlineDue_eventually_enabled_refuted`) and
+  replaced by `deferred_has_deadline_partial` / `deferred_rearmed_by_next_delete` / `orphan_is_fresh`;
+* the fsync task has no timing of its own; I/O failures inside the spawned tasks are not injected here.
+-/
 
 end C13
 end Pearl
